@@ -24,6 +24,8 @@ pub enum Pat {
     Tie,
     TieAll,
     Far,
+    /// a lonely event very far ahead (up to 2e7 buckets): rare, at most one per history
+    MegaFar,
 }
 
 #[derive(Serialize, Deserialize, Clone, Debug, PartialEq, Eq, Hash)]
@@ -59,6 +61,9 @@ pub struct FesProgram {
     /// fault: the destructor of the k-th pending payload panics (once) when the queue is dropped (payload "ptok" only)
     #[serde(default)]
     pub drop_panic: Option<u32>,
+    /// fault: the queue is dropped while the thread unwinds from a panic of its user
+    #[serde(default)]
+    pub drop_in_unwind: bool,
 }
 
 // ---------------------------------------------------------------- payloads
@@ -474,11 +479,12 @@ fn resolve(pat: &Pat, a: u64, now: u64, n: u64, t: u64, pending_times: &dyn Fn(u
         Pat::YearP1 => now.saturating_add(k.saturating_mul(year)).saturating_add(1),
         Pat::Tie => pending_times(a).unwrap_or(now.saturating_add(a % t.max(1))),
         Pat::TieAll => all_times(a).unwrap_or(now),
-        Pat::Far => now.saturating_add(a),
+        Pat::Far | Pat::MegaFar => now.saturating_add(a),
     };
     let raw = raw.max(now);
     // keep the bucket scan of a single fetch bounded
-    let cap = now.saturating_add(max_delta(t)).min(u64::MAX / 4);
+    let reach = if *pat == Pat::MegaFar { t.saturating_mul(6_000_000) } else { max_delta(t) };
+    let cap = now.saturating_add(reach).min(u64::MAX / 4);
     raw.min(cap).max(now)
 }
 
@@ -894,12 +900,30 @@ fn run_ops<P: Payload>(prog: &FesProgram, prop: &str, n: usize, t: u64, page: us
             info.probe("destructor_panic_injected");
         }
     }
+    let times: Vec<u64> = entries.iter().map(|e| e.time).collect();
+    let mut victim_bucket: Option<u64> = None;
+    if let Some(v) = PANIC_ON.with(|p| *p.borrow()) {
+        let year = (n as u64).saturating_mul(t).max(1);
+        victim_bucket = Some((times[v as usize] % year) / t);
+    }
     drop(entries);
-    let dr = std::panic::catch_unwind(std::panic::AssertUnwindSafe(move || drop(q)));
+    let unwind = prog.drop_in_unwind && prog.drop_panic.is_none();
+    let dr = std::panic::catch_unwind(std::panic::AssertUnwindSafe(move || {
+        if unwind {
+            // the user of the queue panics while it owns the queue: the queue is dropped during unwinding
+            let _owned = q;
+            panic!("injected: user code panics while holding the queue");
+        }
+        drop(q);
+    }));
     if dr.is_err() {
         crate::clear_panic();
-        destructor_panicked = true;
-        info.probe("destructor_panic_during_queue_drop");
+        if unwind {
+            info.probe("queue_dropped_during_unwinding");
+        } else {
+            destructor_panicked = true;
+            info.probe("destructor_panic_during_queue_drop");
+        }
     }
     PANIC_ON.with(|p| *p.borrow_mut() = None);
     if want_c15 && P::COUNTS_DROPS {
@@ -907,8 +931,12 @@ fn run_ops<P: Payload>(prog: &FesProgram, prop: &str, n: usize, t: u64, page: us
             for id in 0..n_entries {
                 let d = drops_of(id as u64);
                 if d == 0 && destructor_panicked {
-                    // a panicking destructor may cost the payloads behind it (never corrupt or double-drop them)
-                    continue;
+                    // a panicking destructor may cost the payloads queued behind it in the same bucket (never corrupt or
+                    // double-drop them); everything in other buckets must still be dropped
+                    let year = (n as u64).saturating_mul(t).max(1);
+                    if victim_bucket == Some((times[id] % year) / t) {
+                        continue;
+                    }
                 }
                 if d == 0 {
                     info.violate(Violation::new("C15", "payload-leak", format!("payload {id} ({:?}) was never dropped although the queue is gone", states[id])));
@@ -1039,6 +1067,11 @@ pub fn generate(prop: &str, rng: &mut Rng, tier: Tier) -> FesProgram {
             _ => ops.push(FesOp::CancelFetched { k: rng.below(1 << 16) as u32 }),
         }
     }
+    // rarely: one event hundreds of "years" ahead, followed by ordinary traffic around it
+    if prop == "C01" && rng.chance(1, 300) && !ops.is_empty() {
+        let pos = rng.usize(ops.len());
+        ops.insert(pos, FesOp::Add { pat: Pat::MegaFar, a: rng.below(t_ns.saturating_mul(6_000_000).max(1)) });
+    }
     let drain = if prop == "C15" { rng.chance(1, 2) } else { rng.chance(9, 10) };
     let inv_every = if n <= 64 { 1 } else { 1 + (n as u32 / 64) };
     let mut payload = payload.to_string();
@@ -1049,5 +1082,6 @@ pub fn generate(prop: &str, rng: &mut Rng, tier: Tier) -> FesProgram {
         drop_panic = Some(rng.below(1 << 16) as u32);
         drain = false;
     }
-    FesProgram { n, t_ns, page_size, payload, inv_every, ops, drain, drop_panic }
+    let drop_in_unwind = prop == "C15" && drop_panic.is_none() && !drain && rng.chance(1, 4);
+    FesProgram { n, t_ns, page_size, payload, inv_every, ops, drain, drop_panic, drop_in_unwind }
 }
